@@ -5,7 +5,9 @@ from __future__ import annotations
 def plan(tier, seed):
     J = lambda i, f, **p: {"id": "C15:" + i, "module": "vf.evaljobs", "func": f, "params": p}  # noqa: E731
     jobs = [J("dihedral8 B=2", "augment_job", fn="dihedral8", k=8, B=2), J("symmetric k=2 B=2", "augment_job", fn="symmetric", k=2, B=2),
-            J("symmetric k=3 B=1", "augment_job", fn="symmetric", k=3, B=1), J("loader N=3 bs=2", "loader_job", N=3, batch_size=2, n=3)]
+            J("symmetric k=3 B=1", "augment_job", fn="symmetric", k=3, B=1), J("loader N=3 bs=2", "loader_job", N=3, batch_size=2, n=3),
+            J("dihedral8 B=2 first copy augmented too", "augment_job", fn="dihedral8", k=8, B=2, first_aug_identity=False),
+            J("symmetric k=2 B=2 first copy augmented too", "augment_job", fn="symmetric", k=2, B=2, first_aug_identity=False)]
     for m in ("greedy", "augment", "multistart"):
         jobs.append(J(f"eval {m} B=2", "eval_job", method=m, B=2, k=2, S=2, n=3))
     jobs.append(J("eval multistart_augment B=1", "eval_job", method="multistart_augment", B=1, k=2, S=2, n=3))
@@ -38,4 +40,8 @@ def confirm_witness(rp, resp):
 def signature(c, rp, resp, text):
     import re
 
-    return {"what": re.sub(r"\d+(\.\d+)?", "", text)[:60]}
+    sig = {"what": re.sub(r"\d+(\.\d+)?", "", text)[:60], "first_aug_identity": (rp.get("params") or {}).get("first_aug_identity", True)}
+    m = re.search(r"copy (\d+) of instance (\d+)", text)
+    if m and not sig["first_aug_identity"]:
+        sig.update(copy=int(m.group(1)), instance=int(m.group(2)))
+    return sig
